@@ -27,7 +27,7 @@
 // distinct_nontrivial = number of distinct (cell, direction, line, mutated text) / (cell, input, value) cases whose
 // mutated value differs from the original and for which a verdict is asserted.
 #include "c03_protocols.hh"
-#include <sys/prctl.h>
+#include "c03_bigalloc.hh"
 using namespace drv;
 using namespace c3;
 
@@ -61,7 +61,6 @@ int main(int argc, char **argv)
 	Args A = parse(argc, argv);
 	Report R(A);
 	if (!init_libTMCG()) return 2;
-	prctl(PR_SET_THP_DISABLE, 1, 0, 0, 0);   // the library allocates 670 MB line buffers per stack secret read; do not let the kernel zero huge pages for them
 	MuteCerr mute;
 	std::string fam = A.get("family", "");
 	std::vector<Spec> S;
